@@ -1,6 +1,7 @@
 import ComposeVerif.Lemmas.TravInvS
 import ComposeVerif.Lemmas.TravLive
 import ComposeVerif.Lemmas.TravSkip
+import ComposeVerif.Lemmas.TravRank
 import ComposeVerif.Neg.C13
 import ComposeVerif.Lemmas.AuditCmd  -- makes sure the audit command is built with this module (the check does not build it itself)
 /-!
@@ -261,13 +262,13 @@ end CV.DepGraph
 namespace CV.Trav
 open CV.DepGraph (Reaches)
 
-/-- **root selection** (`WithRootNodesAndDown`): the visitor is called for a service iff no roots were given, or it is a
-root, or it transitively depends on a root.  `fuel` is the recursion bound of the model of `vertex.descendents`
-(`mkGraph` uses the number of services); it is immaterial as soon as the graph has a rank function below it, which
-every DAG on that many services has. -/
-theorem roots_select_dependents (deps : V → List V) (fuel : Nat) (after : List V) (v : V)
-    (rk : V → Nat) (hrk : ∀ v c, c ∈ deps v → rk c < rk v) (hfuel : ∀ v, rk v ≤ fuel) :
-    skipOf deps fuel after v = false ↔ after = [] ∨ v ∈ after ∨ ∃ r ∈ after, ∃ n, Reaches deps n v r := by
+/-- **root selection** (`WithRootNodesAndDown`): on an acyclic dependency graph the visitor is called for a service iff
+no roots were given, or it is a root, or it transitively depends on a root.  (`verts.length` is the recursion bound
+the model of `vertex.descendents` is run with.) -/
+theorem roots_select_dependents (deps : V → List V) (verts : List V) (after : List V) (v : V)
+    (hclosed : ∀ v ∈ verts, ∀ c ∈ deps v, c ∈ verts) (hacyc : ∀ v ∈ verts, ∀ n, ¬ Reaches deps n v v) (hv : v ∈ verts) :
+    skipOf deps verts.length after v = false ↔ after = [] ∨ v ∈ after ∨ ∃ r ∈ after, ∃ n, Reaches deps n v r := by
+  obtain ⟨rk, hrk, hle⟩ := rank_of_acyclic deps verts hclosed hacyc
   rw [skipOf_false_iff]
   constructor
   · rintro (h | h | ⟨r, hr, n, _, hn⟩)
@@ -277,7 +278,17 @@ theorem roots_select_dependents (deps : V → List V) (fuel : Nat) (after : List
   · rintro (h | h | ⟨r, hr, n, hn⟩)
     · exact .inl h
     · exact .inr (.inl h)
-    · exact .inr (.inr ⟨r, hr, n, Nat.le_trans (reaches_le_rank hrk hn) (hfuel v), hn⟩)
+    · have := acyclic_of_rank deps verts hclosed rk hrk hn hv
+      exact .inr (.inr ⟨r, hr, n, by have := hle v; omega, hn⟩)
+
+/-- **acyclic = ranked = accepted**: for a finite vertex set closed under the adjacency, "no closed walk" (what
+`checkCycle` decides) and "a rank function exists" (`GraphOK.rank`, the hypothesis of every traversal theorem above) are
+the same thing, and whatever `checkCycle` accepts has a rank function bounded by the number of vertices. -/
+theorem acyclic_ranked_accepted (adj : V → List V) (verts : List V) (hclosed : ∀ v ∈ verts, ∀ c ∈ adj v, c ∈ verts) :
+    ((∀ v ∈ verts, ∀ n, ¬ Reaches adj n v v) ↔ ∃ rk : V → Nat, ∀ v ∈ verts, ∀ c ∈ adj v, rk c < rk v) ∧
+    (CV.DepGraph.checkCycle verts adj = false →
+      ∃ rk : V → Nat, (∀ v ∈ verts, ∀ c ∈ adj v, rk c < rk v) ∧ ∀ v, rk v ≤ verts.length) :=
+  ⟨acyclic_iff_ranked adj verts hclosed, ranked_of_checkCycle_false adj verts hclosed⟩
 
 /-- non-vacuity: chain 2 → 1 → 0 (2 depends on 1 depends on 0), root 1: 0 is skipped, 1 and 2 are visited -/
 example : let deps : V → List V := fun v => if v = 2 then [1] else if v = 1 then [0] else []
